@@ -83,7 +83,8 @@ pub fn gen_ctor(kind: Kind, r: &mut Rng, st: &mut GenState) -> Ctor {
         Kind::Tpm2 => Ctor::Tpm2 { server: r.bool(), base: r.u64b(), start: *r.pick(&START_METHODS) },
         Kind::Sdt => {
             let rl = 36 + r.below(300) as u32;
-            let len = *r.pick(&[36u32, 37, 40, 44, 64, 255, 256, 257, rl]);
+            let near64k = 65520 + r.below(32) as u32;
+            let len = if r.chance(1, 12) { near64k } else { *r.pick(&[36u32, 37, 40, 44, 64, 255, 256, 257, rl]) };
             st.sdt_len = len as usize;
             Ctor::Sdt { sig: r.bytes(), len, rev: r.u8b() }
         }
@@ -222,6 +223,9 @@ pub fn gen_op(kind: Kind, r: &mut Rng, st: &mut GenState) -> Option<Op> {
             if r.bool() {
                 let n = r.below(12);
                 let mut calls = Vec::new();
+                // enumerated attributes keep one value per node: repeating such a builder with a
+                // conflicting value is outside what the properties state
+                let enum_vals = [r.below(3) as u32, r.below(3) as u32, r.below(2) as u32];
                 for _ in 0..n {
                     let c = r.below(9) as u8;
                     let v = match c {
@@ -232,8 +236,7 @@ pub fn gen_op(kind: Kind, r: &mut Rng, st: &mut GenState) -> Option<Op> {
                             r.below(st.caches as u64) as u32
                         }
                         3 => r.u8b() as u32,
-                        4 | 5 => r.below(3) as u32,
-                        6 => r.below(2) as u32,
+                        4 | 5 | 6 => enum_vals[(c - 4) as usize],
                         7 => r.u16b() as u32,
                         _ => r.u32b(),
                     };
@@ -455,7 +458,7 @@ pub fn gen_op(kind: Kind, r: &mut Rng, st: &mut GenState) -> Option<Op> {
                 2 => SdtOp::AppendU32(r.u32b()),
                 3 => SdtOp::AppendU64(r.u64b()),
                 4 => {
-                    let n = small_or_big(r, 9, &[0, 219, 220, 221]) as usize;
+                    let n = small_or_big(r, 9, &[0, 219, 220, 221, 70_000]) as usize;
                     SdtOp::AppendSlice(r.byte_vec(n))
                 }
                 5 => SdtOp::AppendArr3(r.bytes()),
@@ -564,7 +567,19 @@ pub fn sweep_op(kind: Kind, r: &mut Rng, st: &mut GenState, i: u64) -> Option<Op
         Kind::Cedt => Op::Cxims { gran: (i % 7) as u8, maps: vec![] },
         Kind::Hest => Op::Aer { kind: 1, ctor: None, sets: vec![(0, i as u32)] },
         Kind::Rqsc => Op::Controller { bandwidth: i & 1 == 1, reg: GasArg { space: 0, width: 64, offset: 0, access: 4, addr: r.next_u64() }, rcid: i as u32, mcid: 0, flags: 0, res: vec![] },
-        Kind::Sdt => Op::Sdt(if i % 5 == 0 { SdtOp::SinkByte(r.next_u64() as u8) } else { SdtOp::AppendU8(r.next_u64() as u8) }),
+        Kind::Sdt => Op::Sdt(match i % 8 {
+            0 => SdtOp::SinkByte(r.next_u64() as u8),
+            1 => SdtOp::AppendU8(r.next_u64() as u8),
+            2 => SdtOp::AppendU16(r.next_u64() as u16),
+            3 => SdtOp::AppendU32(r.next_u64() as u32),
+            4 => SdtOp::AppendU64(r.next_u64()),
+            5 => SdtOp::SinkDword(r.next_u64() as u32),
+            6 => {
+                let n = 1 + r.usize_below(24);
+                SdtOp::AppendSlice(r.byte_vec(n))
+            }
+            _ => SdtOp::AppendArr3(r.bytes()),
+        }),
         _ => return None,
     })
 }
@@ -584,7 +599,7 @@ pub fn sweep_entry_size(kind: Kind) -> usize {
         Kind::Cedt => 8,
         Kind::Hest => 44,
         Kind::Rqsc => 28,
-        Kind::Sdt => 1,
+        Kind::Sdt => 6,
         _ => 0,
     }
 }
